@@ -8,7 +8,7 @@
     8 (forest-level theorems for forests without look-alike nodes), 9 (look-alike nodes give a hash
     collision), 10 (THE MAIN THEOREMS at state level, Stages 1-4, the swapped-order variant, boolean
     checkers), 11 (Stage 6: the physical store along a history), 12 (Stage 5: effective-mode runs
-    are plain-mode runs).
+    are plain-mode runs), 13 (Stage 2: the keys that disappear are those [prune_version_ops] deletes).
 
     This file restates the main theorems in full (proofs: [exact]), prints their assumptions, and
     evaluates them on a concrete SHA-256 history. *)
@@ -16,7 +16,7 @@ From Coq Require Import Lia Sorted.
 From IAVL Require Import Bytes Varint Sha256 Tree VMap TreeFacts MTree MTreeFacts HashFacts
   VersionFacts Ics23Facts Store StoreFacts PruneAlgo PruneAlgoFacts1 PruneAlgoFacts2 PruneAlgoFacts3
   PruneAlgoFacts4 PruneAlgoFacts5 PruneAlgoFacts6 PruneAlgoFacts7 PruneAlgoFacts8 PruneAlgoFacts9
-  PruneAlgoFacts10 PruneAlgoFacts11 PruneAlgoFacts12.
+  PruneAlgoFacts10 PruneAlgoFacts11 PruneAlgoFacts12 PruneAlgoFacts13.
 Local Open Scope Z_scope.
 
 (** ** The statements *)
@@ -51,6 +51,20 @@ Theorem PA_delete_version_first :
       disk (pflush p') = phys_of (rk_next v rn r) f' /\
       Forall (disk_ok f') (dhist (pflush p')).
 Proof. exact delete_version_first. Qed.
+
+(** Stage 2, the deleted keys: the keys present in the physical store before deleteVersion(v) and
+    absent from its effective result (by [PA_delete_version_first]: [phys_of (rk_next v rn r) f'])
+    are exactly the keys deleted by [Store.prune_version_ops f v] that were present *)
+Theorem PA_version_keys_exact :
+  forall (f : forest_t) (iv : Z),
+    forest_inv f -> NoDup (map fst f) -> forest_ok f iv ->
+    forall (v : Z) (rv rn : option node) (f'' : forest_t) (r : list Z),
+      f = (v, rv) :: (v + 1, rn) :: f'' -> rekey_ok r f ->
+      forall k,
+        (mfind kcmp k (phys_of r f) <> None /\
+         mfind kcmp k (phys_of (rk_next v rn r) ((v + 1, rn) :: f'')) = None) <->
+        (In k (del_keys (prune_version_ops f v)) /\ mfind kcmp k (phys_of r f) <> None).
+Proof. exact version_keys_exact. Qed.
 
 (** Stage 3: THE MAIN THEOREM *)
 Theorem PA_prune_refines :
@@ -187,6 +201,7 @@ Proof. exact confusion_collision. Qed.
 Print Assumptions PA_phys_readable.
 Print Assumptions PA_disk_ok_readable.
 Print Assumptions PA_delete_version_first.
+Print Assumptions PA_version_keys_exact.
 Print Assumptions PA_prune_refines.
 Print Assumptions PA_prune_refines_reachable.
 Print Assumptions PA_prune_forest_or_confusion.
@@ -335,6 +350,23 @@ Example pa_history_trace :
   map (fun p => rekeyed (snd p)) tr =
     [[]; []; []; []; []; []; []; []; []; []; []; []; [1]; [1]; [1]; []; []] /\
   map snd tr = map (fun p => phys_of (rekeyed (snd p)) (forest (fst p))) tr.
+Proof. vm_compute. repeat split; reflexivity. Qed.
+
+(** Stage 2 on the example: deleting version 3 from versions 3..5 with [r = [1]]: the specification
+    deletes (3,1), (1,1) and (1,0); (3,1) and (1,0) are present and disappear *)
+Example pa_version_keys :
+  let f := filter (fun p => 2 <? fst p) pa_f in
+  let st := phys_of [1] f in
+  let st' := phys_of (rk_next 3 (match lookup 4 f with Some t => t | None => None end) [1])
+                     (filter (fun p => 3 <? fst p) f) in
+  let dk := del_keys (prune_version_ops f 3) in
+  dk = [(3, 1); (1, 1); (1, 0)] /\
+  filter (fun k => negb (mhas kcmp k st')) (map fst st) = [(1, 0); (3, 1)] /\
+  filter (fun k => existsb (keqb k) dk) (map fst st) = [(1, 0); (3, 1)] /\
+  match delete_version sha256 (prune_fuel st) 3 (Pdb st [] [true; true] [] [] false [] [st]) rkc_new with
+  | (POk p', _) => disk (pflush p') = st'
+  | _ => False
+  end.
 Proof. vm_compute. repeat split; reflexivity. Qed.
 
 (** Stage 5 on the example: in the second deletion the third write (deleting (1,1), absent) is
